@@ -4,14 +4,45 @@ import Lc.Model.Concurrent
 namespace Lc.Driver.C20
 open Lean Lc Lc.Driver Lc.Concurrent
 
-def buildPre : Bytes := b!"/VB/layers/b0/build"
+def layerNames : List Bytes := [b!"b0", b!"d0", b!"d1"]
+def buildOf (n : Bytes) : Bytes := b!"/VB/layers/" ++ n ++ b!"/build"
 
-def actsOf (cmd : String) (targets : List Bytes) : List Act :=
-  if cmd == "mount" then mountActs targets else umountActs buildPre
+structure Chain where
+  names : List Bytes
+  imports : List (List Bytes)     -- per layer: mountpoints below its build root
 
-def jState (s : St) : Json :=
-  obj [("kernel", jbs (canonK s.kernel)), ("r0", Json.str (if s.p0.failed then "err" else "ok")),
-       ("r1", Json.str (if s.p1.failed then "err" else "ok"))]
+def getChain (j : Json) : Chain :=
+  let ls := (getArr j "layers").map fun l => match l with
+    | .arr a => a.toList.map fun x => match x with | .str s => fromHex s | _ => []
+    | _ => []
+  if ls.isEmpty then { names := [b!"b0"], imports := [getBs j "targets"] }
+  else { names := layerNames.take ls.length, imports := ls }
+
+/-- mounts of layer i, in the order mountOne issues them: overlay (derived), then imports -/
+def layerTargets (c : Chain) (i : Nat) : List Bytes :=
+  let n := c.names.getD i []
+  (if i > 0 then [buildOf n] else []) ++ (c.imports.getD i []).map fun t => buildOf n ++ t
+
+def idxOf (c : Chain) (n : Bytes) : Nat := c.names.idxOf n
+
+def actsOf (c : Chain) (cmd : String) : List Act :=
+  match cmd.splitOn " " with
+  | [verb, layer] =>
+    let n := layer.toUTF8.toList.map (·.toNat)
+    let i := idxOf c n
+    if verb == "mount" then mountChainActs ((List.range (i + 1)).map (layerTargets c))
+    else
+      let kids := if i + 1 < c.names.length then [buildOf (c.names.getD (i + 1) [])] else []
+      umountLayerActs (buildOf n) kids
+  | [verb] =>
+    if verb == "mount" then mountChainActs [layerTargets c 0] else umountLayerActs (buildOf b!"b0") []
+  | _ => []
+
+def strB (b : Bytes) : String := toStringLossy b
+
+def jState (s : St) : List (String × Json) :=
+  [("kernel", jbs (canonK s.kernel)), ("r0", Json.str (if s.p0.failed then "err" else "ok")),
+   ("r1", Json.str (if s.p1.failed then "err" else "ok"))]
 
 def getSched (j : Json) : List Bool :=
   (getArr j "sched").map fun x => match x with | .bool b => b | _ => false
@@ -19,26 +50,50 @@ def getSched (j : Json) : List Bool :=
 def handle (op : String) (j : Json) : Option Json :=
   match op with
   | "conc.run" =>
-    let targets := (getBs j "targets").map fun t => buildPre ++ t
-    let k0 := if getBool j "premounted" then targets else []
-    let a0 := actsOf (getStr j "cmd0") targets
-    let a1 := actsOf (getStr j "cmd1") targets
+    let c := getChain j
+    let pre := (getBs j "pre").map strB
+    let k0 : List Bytes := if getBool j "premounted" then layerTargets c 0 else []
+    let k0 := pre.foldl (fun k cmd => (solo k (actsOf c cmd)).kernel) k0
+    let cmd0 := getStr j "cmd0"
+    let cmd1 := getStr j "cmd1"
+    let a0 := actsOf c cmd0
+    let a1 := actsOf c cmd1
     let s := run k0 a0 a1 (getSched j)
+    let thenCmds := (getBs j "then").map strB
+    let (thenOut, _) := thenCmds.foldl (fun (acc : List Json × List Bytes) cmd =>
+      let r := solo acc.2 (actsOf c cmd)
+      (acc.1 ++ [obj [("r", Json.str (if r.p0.failed then "err" else "ok")), ("kernel", jbs (canonK r.kernel))]], r.kernel))
+      ([], s.kernel)
+    let model := obj (jState s ++ (if thenCmds.isEmpty then [] else [("then", Json.arr thenOut.toArray)]))
     let impl := getObj j "impl"
-    -- property: the final table is one some serial order could have produced
     let implK := getObj impl "kernel"
     let s01 := serial01 k0 a0 a1
     let s10 := serial10 k0 a0 a1
     let serialOk := implK == jbs (canonK s01.kernel) || implK == jbs (canonK s10.kernel)
-    let tags := [getStr j "cmd0" ++ "/" ++ getStr j "cmd1", (if serialOk then "serial-explainable" else "not-serial")]
-    if serialOk then some (obj [("model", jState s), ("holds", Json.bool true), ("tags", Json.arr (tags.map Json.str).toArray)])
+    -- "one later umount fully unmounts the layer": after a successful later umount of layer L
+    -- nothing is left at or below L's build root
+    let thenBad := ((getArr impl "then").zip thenCmds).any fun (o, cmd) =>
+      match cmd.splitOn " " with
+      | ["umount", layer] =>
+        let pre := buildOf (layer.toUTF8.toList.map (·.toNat))
+        getStr o "r" == "ok" && (match getObj o "kernel" with
+          | .arr a => a.toList.any fun x => match x with
+              | .str h => atOrBelow pre (fromHex h)
+              | _ => false
+          | _ => false)
+      | _ => false
+    let verb := fun (cmd : String) => (cmd.splitOn " ").headD ""
+    let tags := [verb cmd0 ++ "/" ++ verb cmd1, s!"depth:{c.names.length}",
+                 (if serialOk then "serial-explainable" else "not-serial")]
+    let base := [("model", model), ("tags", Json.arr (tags.map Json.str).toArray)]
+    if thenBad then
+      some (obj (base ++ [("holds", Json.bool false), ("why", Json.str "a later umount reported success but left mounts of the layer behind")]))
+    else if serialOk then some (obj (base ++ [("holds", Json.bool true)]))
     else if implK != jbs (canonK s.kernel) then
-      some (obj [("model", jState s), ("holds", Json.bool false),
-                 ("why", Json.str "final mount table is neither serially explainable nor the outcome the recorded race produces for this schedule"),
-                 ("tags", Json.arr (tags.map Json.str).toArray)])
-    else some (obj [("model", jState s), ("holds", Json.bool false), ("finding", Json.str "no-lock-between-check-and-mount"),
-                    ("why", Json.str "final mount table is not the result of any serial order of the two commands"),
-                    ("tags", Json.arr (tags.map Json.str).toArray)])
+      some (obj (base ++ [("holds", Json.bool false),
+        ("why", Json.str "final mount table is neither serially explainable nor the outcome the recorded race produces for this schedule")]))
+    else some (obj (base ++ [("holds", Json.bool false), ("finding", Json.str "no-lock-between-check-and-mount"),
+                             ("why", Json.str "final mount table is not the result of any serial order of the two commands")]))
   | _ => none
 
 end Lc.Driver.C20
